@@ -1183,6 +1183,54 @@ void pixman_timer_register (pixman_timer_t *timer);
 
 #endif /* PIXMAN_TIMERS */
 
+#ifdef PIXMAN_VERIF
+/*
+ * Verification hooks.  Compiled in only with -DPIXMAN_VERIF and inert unless
+ * a test driver stores a function in _pixman_verif_sink.
+ */
+typedef struct
+{
+    int		op_in, op_out;
+    uint32_t	src_format, mask_format, dest_format;
+    uint32_t	src_flags, mask_flags, dest_flags;
+    int		x1, y1, x2, y2;		/* composite extents */
+    const void *imp;
+    const void *func;
+    const void *src, *mask, *dest;
+} pixman_verif_dispatch_t;
+
+typedef struct
+{
+    const void *cache;			/* address of this thread's fast path cache */
+    int		hit;			/* cache index that matched, or -1 */
+    const void *toplevel, *imp, *func;
+    int		op;
+    uint32_t	src_format, mask_format, dest_format;
+    uint32_t	src_flags, mask_flags, dest_flags;
+} pixman_verif_lookup_t;
+
+typedef struct
+{
+    const void *image;
+    int		was_dirty;
+    uint32_t	flags;
+    uint32_t	extended_format_code;
+} pixman_verif_validate_t;
+
+typedef struct
+{
+    const void *image;
+    int		ref_count;		/* after the call */
+    int		freed;
+} pixman_verif_ref_t;
+
+typedef void (*pixman_verif_sink_t) (const char *event, const void *data);
+extern pixman_verif_sink_t _pixman_verif_sink;
+
+#define PIXMAN_VERIF_EVENT(name, data)					\
+    do { if (_pixman_verif_sink) _pixman_verif_sink ((name), (data)); } while (0)
+#endif /* PIXMAN_VERIF */
+
 #endif /* __ASSEMBLER__ */
 
 #endif /* PIXMAN_PRIVATE_H */
